@@ -207,7 +207,7 @@ class SpawnPlayerPacket(Packet):
     # NOTE: modifying the object retrieved from this property will not change
     # the packet; it can only be changed by attribute or property assignment.
     position_and_look = multi_attribute_alias(
-        PositionAndLook, 'x', 'y', 'z', 'yaw', 'pitch')
+        PositionAndLook, x='x', y='y', z='z', yaw='yaw', pitch='pitch')
 
 
 class EntityVelocityPacket(Packet):
